@@ -206,7 +206,7 @@ impl JavaTarget {
 
 impl Target for JavaTarget {
     fn dec(&mut self, di: usize, ty: &str, _root: &str, b: &[u8]) -> RDec {
-        match self.pipe.call(&["D", &format!("p{di}"), ty, &hex(b)]) {
+        match self.pipe.call(&["D", &format!("p{di}"), &java_class_name(ty), &hex(b)]) {
             Err(e) => RDec::Crash(e),
             Ok(p) => match p.first().map(|s| s.as_str()) {
                 Some("OK") if p.len() >= 4 => RDec::Ok {
@@ -227,7 +227,7 @@ impl Target for JavaTarget {
         }
     }
     fn enc(&mut self, di: usize, ty: &str, v: &Value) -> REnc {
-        match self.pipe.call(&["E", &format!("p{di}"), ty, &v.to_string()]) {
+        match self.pipe.call(&["E", &format!("p{di}"), &java_class_name(ty), &v.to_string()]) {
             Err(e) => REnc::Crash(e),
             Ok(p) => match p.first().map(|s| s.as_str()) {
                 Some("OK") if p.len() >= 2 => REnc::Ok { bytes: unhex(&p[1]), size: Err("-".into()) },
@@ -303,19 +303,7 @@ pub fn check_dec(be: Backend, r: &Ref, ty: &str, b: &[u8], single_fault: bool, g
                 Ok((rv, _)) => {
                     // Java parents dispatch eagerly: when a child's constraints match but the payload does not parse
                     // as that child, throwing is "rejecting what the reference rejects" (as that child)
-                    let mut excused = false;
-                    if be == Backend::Java {
-                        let mut nodes = r.d.descendants_of(&asked);
-                        nodes.retain(|x| {
-                            let xf = r.flat(x);
-                            let af = r.flat(&asked);
-                            xf.cons.iter().filter(|(k, _)| !af.cons.contains_key(*k)).all(|(k, v)| rv.get(k).map(|g| g.as_u64() == Some(*v)).unwrap_or(true))
-                        });
-                        excused = nodes.iter().any(|x| {
-                            let mut e3 = Events::new();
-                            r.decode(x, b, true, &mut e3).is_err()
-                        });
-                    }
+                    let excused = be == Backend::Java && java_matching_child_malformed(r, &asked, rv, b);
                     if excused {
                         res.outcome = format!("reject:matching-child-malformed:{class}");
                         res.nontrivial = true;
@@ -340,10 +328,18 @@ pub fn check_dec(be: Backend, r: &Ref, ty: &str, b: &[u8], single_fault: bool, g
             res.outcome = "accept".into();
             // the returned class: the asked type or one of its descendants (Java: or the Unknown<Parent> fallback)
             let mut cls = class.clone();
-            if be == Backend::Java && cls.starts_with("Unknown") {
-                // Unknown<X>: the fallback child of X, i.e. an X whose payload matched no child
-                cls = cls["Unknown".len()..].to_string();
+            if be == Backend::Java {
+                // Java class names are the UpperCamelCase of the identifiers; Unknown<X> is the fallback
+                // child of X, i.e. an X whose payload matched no child
+                let ids = r.d.record_ids();
+                if let Some(id) = ids.iter().find(|id| java_class_name(id) == cls) {
+                    cls = id.clone();
+                } else if let Some(id) = cls.strip_prefix("Unknown").and_then(|rest| ids.iter().find(|id| java_class_name(id) == rest)) {
+                    cls = id.clone();
+                }
             }
+            let class = if be == Backend::Java && class.starts_with("Unknown") && &cls != class { class.clone() } else { cls.clone() };
+            let class = &class;
             let allowed = cls == asked || r.d.descendants_of(&asked).contains(&cls);
             if !allowed {
                 res.fails.push(rf("decode", "returns-unrelated-class", format!("asked {asked}, got {class}")));
@@ -437,7 +433,7 @@ pub fn check_enc(be: Backend, r: &Ref, ty: &str, v: &Value, got: &REnc, back: Op
                     // Shapes that are not round-trippable (e.g. a padded array without size field) come back as
                     // the reference decoder reads them; v itself is demanded when the reference round-trips.
                     let mut e2 = Events::new();
-                    if let (true, Ok((rv, _))) = (class == ty, r.decode(ty, &e.bytes, true, &mut e2)) {
+                    if let (true, Ok((rv, _))) = (class == ty || (be == Backend::Java && class == &java_class_name(ty)), r.decode(ty, &e.bytes, true, &mut e2)) {
                         if !sub_match(&rv, value) {
                             res.fails.push(rf("parse(serialize(v))", "round-trip-differs", format!("{v} -> {value}, reference reads {rv}")));
                         }
@@ -447,7 +443,8 @@ pub fn check_enc(be: Backend, r: &Ref, ty: &str, v: &Value, got: &REnc, back: Op
                 Some(RDec::Err { class, msg, .. }) => {
                     // only a violation when the reference itself round-trips
                     let mut e2 = Events::new();
-                    if r.decode(ty, &e.bytes, true, &mut e2).map(|x| sub_match(v, &x.0)).unwrap_or(false) {
+                    let excused = be == Backend::Java && java_matching_child_malformed(r, ty, v, &e.bytes);
+                    if !excused && r.decode(ty, &e.bytes, true, &mut e2).map(|x| sub_match(v, &x.0)).unwrap_or(false) {
                         res.fails.push(rf("parse(serialize(v))", format!("round-trip-fails:{class}"), msg.clone()));
                     }
                 }
@@ -470,6 +467,31 @@ pub struct RemoteDesc {
 
 /// Run decode / encode cases for every record type of every description.
 /// `mk` creates one target per worker.
+/// Java parents dispatch eagerly: true when a descendant's constraints match the parent-level value `rv`
+/// but the octets do not parse as that descendant.
+pub fn java_matching_child_malformed(r: &Ref, asked: &str, rv: &Value, b: &[u8]) -> bool {
+    let mut nodes = r.d.descendants_of(asked);
+    nodes.retain(|x| {
+        let xf = r.flat(x);
+        let af = r.flat(asked);
+        xf.cons.iter().filter(|(k, _)| !af.cons.contains_key(*k)).all(|(k, v)| rv.get(k).map(|g| g.as_u64() == Some(*v)).unwrap_or(true))
+    });
+    nodes.iter().any(|x| {
+        let mut e3 = Events::new();
+        r.decode(x, b, true, &mut e3).is_err()
+    })
+}
+
+/// The class name the Java backend gives a declaration (backends/java/mod.rs, Class::name_from_id).
+pub fn java_class_name(id: &str) -> String {
+    use heck::ToUpperCamelCase;
+    if id.ends_with('_') {
+        format!("{}_", id.to_upper_camel_case())
+    } else {
+        id.to_upper_camel_case()
+    }
+}
+
 pub fn run_remote<T: Target>(prop: &str, be: Backend, seed: u64, cases: (u32, u32), descs: &[RemoteDesc], kf: &Kf, workers: usize, mk: &(dyn Fn(usize) -> Result<T, String> + Sync)) -> Result<Partial, Infra> {
     let parts: Vec<Result<Partial, String>> = std::thread::scope(|sc| {
         let mut hs = vec![];
